@@ -140,10 +140,11 @@ template <class Alg> void run_job(const Plan &p, const std::vector<EventData> &e
   trees().reset();
   edm::vm_consumes::get().decl.clear();
   out() << "JOB " << p.job << " " << p.tag << "\n"; out().flush();
-  std::unique_ptr<Alg> alg;
+  Poisoned<Alg> holder;
+  Alg *alg = nullptr;
   try {
     edm::ParameterSet ps;
-    alg.reset(new Alg(ps));
+    alg = holder.make(ps);
     alg->vm_begin_job();
   } catch (std::exception &e) { out() << "INIT THROW " << hex(e.what()) << "\n"; return; }
   trees().schema();
